@@ -209,15 +209,37 @@ Ltac inv_of lem E :=
 
 Lemma connect_spec : forall ssl w c w1, run_prim (PConnect ssl) w = (c, w1) -> w_conn w = conn0 ->
   match c with
-  | Some _ => w_conn w1 = conn0 /\ w_trace w1 = w_trace w
+  | Some _ => w_conn w1 = conn0 /\ w_trace w1 = w_trace w /\ w_cs w1 = w_cs w
   | None => opened (w_conn w1) = true /\ copen (w_conn w1) = true /\ hung (w_conn w1) = false /\ ctls (w_conn w1) = ssl
             /\ w_trace w1 = w_trace w /\ w_cs w1 = w_cs w
   end.
 Proof.
   intros ssl w c w1 H H0. unfold run_prim in H. rewrite H0 in H. simpl in H.
+  destruct (refuse (w_srv w)); [ | inversion H; subst; simpl; auto ].
   destruct ssl.
   - destruct (hs (w_srv w)); [ destruct (pop_decision (set_stls (w_srv w) true)) | | ]; inversion H; subst; simpl; auto 10.
   - destruct (pop_decision (w_srv w)); inversion H; subst; simpl; auto 10.
+Qed.
+
+(* the dial function incl. the second attempt on the fallback port *)
+Lemma connect2_spec : forall cfg w c w1, run (connect cfg) w = (c, w1) -> w_conn w = conn0 ->
+  match c with
+  | Some _ => w_conn w1 = conn0 /\ w_trace w1 = w_trace w /\ w_cs w1 = w_cs w
+  | None => opened (w_conn w1) = true /\ copen (w_conn w1) = true /\ hung (w_conn w1) = false /\ ctls (w_conn w1) = c_ssl cfg
+            /\ w_trace w1 = w_trace w /\ w_cs w1 = w_cs w
+  end.
+Proof.
+  intros cfg w c w1 H H0. unfold connect, prim1 in H. simpl in H.
+  destruct (run_prim (PConnect (c_ssl cfg)) w) as [c1 wa] eqn:E1.
+  pose proof (connect_spec _ _ _ _ E1 H0) as S1.
+  destruct c1 as [e1 | ].
+  - destruct S1 as (A & B & C). destruct (c_fallback cfg); simpl in H.
+    + destruct (run_prim (PConnect (c_ssl cfg)) wa) as [c2 wb] eqn:E2. simpl in H. inversion H; subst.
+      pose proof (connect_spec _ _ _ _ E2 A) as S2.
+      destruct c; [ destruct S2 as (A2 & B2 & C2) | destruct S2 as (O2 & P2 & Q2 & R2 & B2 & C2) ];
+        repeat split; auto; congruence.
+    + inversion H; subst. auto.
+  - simpl in H. inversion H; subst. exact S1.
 Qed.
 
 (* the part of dial after the connection exists and the deadline is (or is not) set *)
@@ -246,7 +268,7 @@ Definition dial_rest (fuel : nat) (cfg : config) : prog (res unit) :=
 Definition arm_opt (cfg : config) : prog unit := if fx_arm cfg then (prim1 PArm ;;; Ret tt) else Ret tt.
 
 Lemma dial_unfold : forall fuel cfg,
-  dial fuel cfg = (c <- prim1 (PConnect (c_ssl cfg)) ;;
+  dial fuel cfg = (c <- connect cfg ;;
                    match c with Some e => Ret (Err e) | None => arm_opt cfg ;;; dial_rest fuel cfg end).
 Proof. reflexivity. Qed.
 
@@ -286,9 +308,7 @@ Lemma dial_closed : forall fuel cfg w r w', fx_close cfg = true -> w_conn w = co
   end.
 Proof.
   intros fuel cfg w r w' Hf H0 H. rewrite dial_unfold in H.
-  sx H. unfold prim1 in E. simpl in E. destruct (run_prim (PConnect (c_ssl cfg)) w) as [c wc] eqn:Ec.
-  inversion E; subst; clear E.
-  pose proof (connect_spec _ _ _ _ Ec H0) as Hc.
+  sx H. pose proof (connect2_spec _ _ _ _ E H0) as Hc. clear E.
   destruct a as [e | ].
   - simpl in H. inversion H; subst. destruct Hc as [Hc _]. rewrite Hc. simpl. discriminate.
   - destruct Hc as (Ho & _).
@@ -551,9 +571,7 @@ Lemma dial_J : forall fuel cfg w r w', fx_arm cfg = true -> w_conn w = conn0 ->
   hung (w_conn w') = false /\ (forall u, r = Ok u -> Jinv w').
 Proof.
   intros fuel cfg w r w' Hf H0 H. rewrite dial_unfold in H.
-  sx H. unfold prim1 in E. simpl in E. destruct (run_prim (PConnect (c_ssl cfg)) w) as [c wc] eqn:Ec.
-  inversion E; subst; clear E.
-  pose proof (connect_spec _ _ _ _ Ec H0) as Hc.
+  sx H. pose proof (connect2_spec _ _ _ _ E H0) as Hc. clear E.
   destruct a as [e | ].
   - simpl in H. inversion H; subst. destruct Hc as [Hc _]. rewrite Hc. simpl. split; [reflexivity | intros; discriminate].
   - destruct Hc as (Ho & _ & Hh & _).
@@ -790,11 +808,9 @@ Lemma dial_mandatory : forall fuel cfg w r w', c_policy cfg = Mandatory -> c_ssl
   AllowedInv handshake_free_verb w' /\ (forall u, r = Ok u -> ctls (w_conn w') = true /\ opened (w_conn w') = true).
 Proof.
   intros fuel cfg w r w' Hp Hs H0 HA H. rewrite dial_unfold in H.
-  sx H. unfold prim1 in E. simpl in E. destruct (run_prim (PConnect (c_ssl cfg)) w) as [c wc] eqn:Ec.
-  inversion E; subst; clear E.
-  pose proof (connect_spec _ _ _ _ Ec H0) as Hc.
+  sx H. pose proof (connect2_spec _ _ _ _ E H0) as Hc. clear E.
   destruct a as [e | ].
-  - simpl in H. inversion H; subst. destruct Hc as [_ Hc]. split; [ | intros; discriminate ].
+  - simpl in H. inversion H; subst. destruct Hc as [_ [Hc _]]. split; [ | intros; discriminate ].
     unfold AllowedInv in *. rewrite Hc. exact HA.
   - destruct Hc as (Ho & _ & _ & _ & Ht & _).
     assert (HA0 : AllowedInv handshake_free_verb w0) by (unfold AllowedInv in *; rewrite Ht; exact HA).
@@ -809,11 +825,9 @@ Lemma dial_implicit : forall fuel cfg w r w', c_ssl cfg = true -> w_conn w = con
   clear_cmds (w_trace w') = clear_cmds (w_trace w) /\ (forall u, r = Ok u -> Tinv (clear_cmds (w_trace w)) w').
 Proof.
   intros fuel cfg w r w' Hs H0 H. rewrite dial_unfold in H.
-  sx H. unfold prim1 in E. simpl in E. destruct (run_prim (PConnect (c_ssl cfg)) w) as [c wc] eqn:Ec.
-  inversion E; subst; clear E.
-  pose proof (connect_spec _ _ _ _ Ec H0) as Hc.
+  sx H. pose proof (connect2_spec _ _ _ _ E H0) as Hc. clear E.
   destruct a as [e | ].
-  - simpl in H. inversion H; subst. destruct Hc as [_ Hc]. rewrite Hc. split; [reflexivity | intros; discriminate].
+  - simpl in H. inversion H; subst. destruct Hc as [_ [Hc _]]. rewrite Hc. split; [reflexivity | intros; discriminate].
   - destruct Hc as (Ho & _ & _ & Htl & Ht & _). rewrite Hs in Htl.
     assert (HT : Tinv (clear_cmds (w_trace w)) w0) by (repeat split; auto; congruence).
     match type of H with run ?m w0 = _ => pose proof (run_inv _ (prim_T _) _ m w0 HT) as HT2 end.
@@ -1006,3 +1020,7 @@ Lemma prefer_lists_no_noenc :
   forallb (fun t => negb (noenc_type t)) Gen.auth_prefer_unencrypted = true.
 Proof. split; vm_compute; reflexivity. Qed.
 
+
+Lemma C17_quick_send_no_hang_l : forall fuel with_auth host fxc fxq fxs nrcpt (s : srv),
+  outcome_of (run (quick_send fuel with_auth host fxc fxq true fxs nrcpt) (world0 s)) <> Hang.
+Proof. intros. unfold quick_send. apply C17_dial_and_send_no_hang_l. reflexivity. Qed.
